@@ -137,6 +137,17 @@ def triage(eng, prop, ob, ctx):
         for r, m in models:
             try:
                 inputs = cex.extract_inputs(eng, m, penv, entry)
+                stubs = cex.extract_stubs(eng, m, ob.state, entry)
+                extra = dict(extra)
+                if stubs:
+                    extra["stubs"] = stubs
+                wrap = []
+                for ev in ob.state.trace:
+                    if not isinstance(ev, cex.LoopSegment) and ev.target == "call" and getattr(ev, "key", None) \
+                            and ev.method in (ob.clause or "") and ev.key not in wrap:
+                        wrap.append(ev.key)
+                if wrap:
+                    extra["wrap"] = wrap
             except Exception as e:  # noqa
                 ob.info["extract_error"] = repr(e)
                 continue
